@@ -72,7 +72,7 @@ func c12(e *Env) {
 	tcs := e.tableCtxs()
 	var probes int64
 	acc := newFeatAcc()
-	perKey := e.N(6, 60)
+	perKey := e.N(6, 300)
 	// ---------------- registered keys
 	e.Par(len(tcs), func(i int) {
 		tc := tcs[i]
@@ -313,7 +313,7 @@ func c12(e *Env) {
 		mode   string
 	}
 	var chunks []chunk
-	exhaustU32 := uint64(1) << uint(e.N(20, 24))
+	exhaustU32 := uint64(1) << uint(e.N(20, 26))
 	for _, tc := range tcs {
 		switch tc.tb.KeyKind {
 		case "u16":
@@ -322,7 +322,7 @@ func c12(e *Env) {
 			for lo := uint64(0); lo < exhaustU32; lo += 1 << 18 {
 				chunks = append(chunks, chunk{tc, lo, lo + 1<<18, "range"})
 			}
-			chunks = append(chunks, chunk{tc, 0, 0, "neighbours"}, chunk{tc, 0, uint64(e.N(100000, 10000000)), "random"})
+			chunks = append(chunks, chunk{tc, 0, 0, "neighbours"}, chunk{tc, 0, uint64(e.N(100000, 50000000)), "random"})
 		case "str":
 			chunks = append(chunks, chunk{tc, 0, 0, "str-small"}, chunk{tc, 0, 0, "str-edits"})
 			if e.Thorough {
@@ -437,7 +437,7 @@ func c12(e *Env) {
 			if tc.tb.KeyKind == "u16" {
 				exhaustive[tc.tb.QName] = "all 65536 keys"
 			} else {
-				exhaustive[tc.tb.QName] = fmt.Sprintf("all keys < 2^%d", e.N(20, 24))
+				exhaustive[tc.tb.QName] = fmt.Sprintf("all keys < 2^%d", e.N(20, 26))
 			}
 		case "str-all3":
 			exhaustive[tc.tb.QName] = "all byte strings of length <= 3"
